@@ -121,8 +121,9 @@ Definition all_derived (l : list (string * string)) : bool :=
   negb (Nat.eqb (List.length l) 0) && forallb (fun p => String.eqb (snd p) "derived") l.
 
 (* a method that makes two or more self-locking calls on a path is a compound operation
-   (check-then-act): all of them must sit inside ONE critical section - no call before the lock is
-   taken, none after it is released, no unlock in between *)
+   (check-then-act): all of them must sit inside ONE critical section of the WRITE lock - no call
+   before the lock is taken, none after it is released, no unlock in between (under a read lock two
+   goroutines could still interleave their compound operations: Proof/C20_nsgen.v has the witness) *)
 Definition is_safecall (e : lev) : bool := match e with LSafeCall _ _ => true | _ => false end.
 Definition is_lockop (e : lev) : bool :=
   match e with LLock _ | LUnlock _ | LRLock _ | LRUnlock _ => true | _ => false end.
@@ -134,7 +135,7 @@ Fixpoint drop_until_call (l : list lev) : list lev :=
 Fixpoint locked_before_first_call (h : held) (l : list lev) : bool :=
   match l with
   | [] => true
-  | e :: r => if is_safecall e then match h with HNone => false | _ => true end
+  | e :: r => if is_safecall e then match h with HWrite _ => true | _ => false end   (* under the WRITE lock *)
               else match lev_step h e with Some h' => locked_before_first_call h' r | None => false end
   end.
 Definition calls_atomic (l : list lev) : bool :=
